@@ -49,7 +49,7 @@ def run(ctx) -> None:
     real_bad = ctx.bad
     ctx.bad = lambda *a, **k: (real_bad(*a, **k) if a and a[0] != "C08.table" else held.append((a, k)))  # type: ignore[method-assign]
     try:
-        check_table(ctx)
+        ctx.guard(check_table, ctx)
     finally:
         del ctx.bad
     for a, k in held:
@@ -57,8 +57,9 @@ def run(ctx) -> None:
             ctx.bad(*a, **k)
         else:
             ctx.note(f"structural reading not confirmed by the evaluated text -> rule clause (no report): {a[3] if len(a) > 3 else a}"[:300])
+    ctx.explain(parse_failed, check_table_spelling, ctx)
     ctx.guard(check_parser_tokens, ctx)
-    check_siblings(ctx)
+    check_siblings(ctx, parse_failed)
     check_pickle(ctx)
     check_remover(ctx)
     check_nocache(ctx)
@@ -83,7 +84,15 @@ def check_table(ctx) -> None:
         raise AnalysisError("core.gene.replacements not found")
     pairs = _literal_pairs(vals[-1])
     if len(pairs) < 5:
-        raise AnalysisError("core.gene.replacements is not a literal table of (character, token) pairs")
+        # not written as a literal: take the value the module's own top-level statements compute
+        from ..interp import Interp
+
+        env = Interp(prog, (), [], {}, globals_={})._module_env(unit)
+        v = env.get("replacements")
+        if isinstance(v, (tuple, list)) and all(isinstance(p, (tuple, list)) and len(p) == 2 and all(isinstance(x, str) for x in p) for p in v):
+            pairs = [(p[0], p[1]) for p in v]
+    if len(pairs) < 5:
+        raise AnalysisError("core.gene.replacements cannot be computed as a table of (character, token) pairs from the module's top-level statements")
     chars = [c for c, _ in pairs]
     toks = [t for _, t in pairs]
     rel = unit.rel
@@ -110,6 +119,14 @@ def check_table(ctx) -> None:
             ctx.ok("C08.table", None, "replacements nesting", "contained tokens are decoded after the longer ones")
     else:
         ctx.ok("C08.table", None, "replacements nesting", "no token contains another token or an escaped character")
+    _check_inband(ctx, toks, rel)
+
+
+def check_table_spelling(ctx) -> None:
+    """How writer and reader are spelled (shared loop over the table, prefix marker, keyword list): explains only."""
+    prog = ctx.prog
+    unit = prog.unit("cobra.core.gene")
+    rel = unit.rel
     # writer and reader iterate the same table
     fs = prog.func("cobra.core.gene", "GPR.from_string")
     vn = prog.func("cobra.core.gene", "GPRCleaner.visit_Name")
@@ -174,6 +191,9 @@ def check_table(ctx) -> None:
     kre = unit.globals.get("keyword_re")
     if kre and "keywords" in norm(kre[-1]) and "\\\\b" in norm(kre[-1]).replace("\\b", "\\\\b"):
         ctx.ok("C08.table", None, "keyword_re", "alternation joined from the keyword list with word boundaries", nontrivial=False)
+
+
+def _check_inband(ctx, toks, rel) -> None:
     # ---- in-band tokens (K4)
     inband = [t for t in toks if IDENT.match(t)]
     if inband:
@@ -214,7 +234,7 @@ def _polarity(ctx, fn: FuncInfo, or_test, and_test, or_member, and_member, label
             ctx.bad("C08.siblings", fn, fn.node, f"{label}: no case for the {k} operator")
 
 
-def check_siblings(ctx) -> None:
+def check_siblings(ctx, parse_failed: bool = True) -> None:
     check_operand_lists(ctx)
     ctx.guard(check_equivalence, ctx)
     from . import gprform
@@ -224,7 +244,8 @@ def check_siblings(ctx) -> None:
     prog = ctx.prog
     # to_string/_ast2str, as_symbolic/_symbolic_gpr and from_symbolic are evaluated (gprform) instead of read by shape
     vb = prog.func("cobra.core.gene", "GPRCleaner.visit_BinOp")
-    _polarity(ctx, vb, lambda t: "BitOr" in t, lambda t: "BitAnd" in t, lambda x: "BoolOp(Or()" in x, lambda x: "BoolOp(And()" in x, "GPRCleaner.visit_BinOp")
+    # visit_BinOp is evaluated as part of the text -> rule clause (`(a & b) | c`): its reading explains only
+    ctx.explain(parse_failed, _polarity, ctx, vb, lambda t: "BitOr" in t, lambda t: "BitAnd" in t, lambda x: "BoolOp(Or()" in x, lambda x: "BoolOp(And()" in x, "GPRCleaner.visit_BinOp")
     pa = prog.func("cobra.io.sbml", "_sbml_to_model.process_association")
     _polarity(ctx, pa, lambda t: "isFbcOr" in t, lambda t: "isFbcAnd" in t, lambda x: "BoolOp(Or()" in x, lambda x: "BoolOp(And()" in x, "SBML process_association")
 
